@@ -6,4 +6,10 @@ SPECS = [
      r'const\s+MAX_SEQUENCE_AGE\s*:\s*Duration\s*=\s*Duration::from_secs\(([0-9_ \*]+)\)\s*;', 'N'),
     ('CTR_FUTURE_SKEW_SECS', 'src/monotonic_counter.rs',
      r'if\s+timestamp\s*>\s*current_time\s*\+\s*([0-9_]+)\s*\{\s*return\s+SequenceValidationResult::FromFuture', 'N'),
+    # validate-and-apply runs inside ONE critical section: the body of validate_sequence takes the counters
+    # write lock exactly once and never the read lock (same for batch_update)
+    ('CTR_SINGLE_WRITE_SECTION', 'src/monotonic_counter.rs',
+     r'pub async fn validate_sequence\((?:(?!self\.counters\.(?:read|write)\(\)).)*?(self\.counters\.write\(\))(?:(?!self\.counters\.(?:read|write)\(\)).)*?fn validate_sequence_internal', 'present'),
+    ('CTR_BATCH_SINGLE_WRITE_SECTION', 'src/monotonic_counter.rs',
+     r'pub async fn batch_update\((?:(?!self\.counters\.(?:read|write)\(\)).)*?(self\.counters\.write\(\))(?:(?!self\.counters\.(?:read|write)\(\)).)*?pub async fn get_stats', 'present'),
 ]
